@@ -15,6 +15,10 @@ CLAIMED = {
   text="Coq theorems, generic in the vector operations and instantiated for Curve2/Curve3: by-count positions are n values from 0 to L inclusive spaced L/(n-1); ceil(L/s)+1 points give steps <= s; fixed-spacing positions are centred with equal margins in (0, s/2], exactly s apart, inside [0,L], and the loop terminates; every resampled vertex is the curve's point at a requested arc length (on an edge at a fraction in [0,1]), by-count resampling starts and ends at the curve's first and last vertices, in-range positions never panic; Ramer-Douglas-Peucker returns a subsequence keeping both end points with every dropped vertex within the tolerance of the segment between its nearest kept neighbours; gap filling keeps the originals in order with no consecutive pair above the maximum, inserting the smallest count n>=1 with d/(n+1) <= max, and terminates. Tie: differential correspondence requiring bit-identical resampled, simplified, RDP and gap-filled point lists, plus oracles for every clause on the implementation's output.",
   note="Theorems over exact reals (" + REALS + "). One open known finding (Curve2::simplify on a closed curve whose vertices are all within the tolerance of the first). The chord-error clause on the length (resampled length <= original) is checked by the oracle per case, not proved. Requests for which no curve exists (a single sample) are accepted as rejected.",
   technique="Rocq proof generic over vector operations + differential correspondence"),
+ "C19": dict(
+  text="Coq theorems: each of the six try_from_basis_* constructors, when it succeeds, returns an orthonormal triple with e0 x e1 = e2 whose primary axis is the normalised first argument and whose secondary axis has positive dot product with the second argument; it fails exactly when the first argument has norm <= 1e-10 or the sine of the angle is <= 1e-10 (third normalisation never fails); the weighted mean is invariant under uniform scaling of the weights; to_basis and from_basis are mutually inverse for an orthonormal basis (completeness by Groebner basis); planes from point+normal and from three points contain their defining points with a unit normal, projection lands on the plane, is idempotent and fixes points of the plane, inversion flips the signed distance. Tie: differential correspondence on frames, centres, variances, rank, basis coordinates, planes; nalgebra's SVD and quaternion conversion are certified per run (orthonormal basis, non-increasing singular values, eigen-pair residual of the scatter matrix).",
+  note="Theorems over exact reals (" + REALS + "). SVD itself is an oracle certified per run, not proved. One open known finding: nalgebra's SVD loses the largest singular value (up to 20%) on numerically rank-deficient point sets. Equivariance under rigid motion is covered by C03.",
+  technique="Rocq proof (vector algebra, nsatz) + per-run certificate of the SVD oracle + differential correspondence"),
  "C09": dict(
   text="Coq theorems over the model of polynomial.rs / series1.rs / circle2.rs: the accumulated sums are the weighted power sums of every order 0..2K (the order-K sum included) and the right-hand side the weighted moments; any solution of the normal equations has a residual orthogonal to every monomial column, hence minimises the weighted sum of squares for non-negative weights; exact polynomial data solve the normal equations with their own coefficients (recovery under uniqueness); the closed-form series line solves the degree-1 normal equations; the three-point circle passes through its points and collinear triples are rejected; each circle-fit Jacobian entry is the derivative (Coquelicot is_derive) of the weighted radial residual; the RANSAC bookkeeping returns a candidate of maximal inlier count. Tie: the implementation's coefficients must solve the MODEL's normal equations row by row; the LM problem is driven through set_params histories via a feature-gated hook and compared with the model; LM convergence/recovery and RANSAC support are certified per run by oracles.",
   note="Theorems over exact reals (" + REALS + "). Matrix inverse, levenberg-marquardt and the RANSAC index stream are oracles; convergence is per-run (partial). Known finding: the normal-equation solve loses accuracy in proportion to the Hankel condition number (KNOWN_FINDINGS.txt).",
